@@ -25,12 +25,16 @@ def lvalue_key(n):
         b = n.child('base')
         if not n.n:
             return lvalue_key(b)  # anonymous struct/union member: transparent
+        arrow = n.arrow
+        while b is not None and b.k == 'MemberExpr' and not b.n:
+            arrow = b.arrow
+            b = b.child('base')
         if b is not None and b.k == 'CXXThisExpr':
             return 'this->' + n.n
         bk = lvalue_key(b)
         if bk is None:
             return None
-        return bk + ('->' if n.arrow else '.') + n.n
+        return bk + ('->' if arrow else '.') + n.n
     if n.k == 'UnaryOperator' and n.op == '*':
         bk = lvalue_key(n.child('sub'))
         return None if bk is None else '*' + bk
